@@ -171,7 +171,7 @@ def tlc_cases(tier, seed, consts, emit=True, extra=(), workers=16, timeout=None)
     cs = dict(consts)
     cs.update(Bases=plan(tier, seed), Deltas="{-2, -1, 0, 1, 2}", Small="{0, 1, 2, 3}", Gen=70000 if big else 2000, FixedLens=FIXED_LENS,
               EMIT="ACTION_CONSTRAINT Emit" if emit else "", INVARIANTS=INVARIANTS, PROPERTIES="PaddingShifts StagesAdvance")
-    r = vlib.tlc(SPEC, "MCUdpLayout", "MCUdpLayout.cfg", cs, workers=workers, timeout=timeout or (1500 if big else 600), edges=False, keep_out=True,
+    r = vlib.tlc(SPEC, "MCUdpLayout", "MCUdpLayout.cfg", cs, workers=workers, timeout=timeout or (2400 if big else 1200), edges=False, keep_out=True,
                  heap="12g" if big else "6g", extra=extra)
     return r
 
@@ -206,7 +206,6 @@ def replay_cases(v, binary, cases, seed, prm, what, timeout):
     chunks = [cases[i::n] for i in range(n)]
     outs = common.run_parallel(binary, "TestCases", [{"params": {"cases": ch, "params": prm}, "seed": seed + i} for i, ch in enumerate(chunks)], timeout)
     tot = collections.Counter()
-    distinct = set()
     nviol = 0
     for res, out, rc in outs:
         if res is None and ("panic:" in out or "fatal error:" in out):
@@ -318,6 +317,7 @@ def run(tier, seed, replay):
         last = sts[-1]
         # the model's journey of that case to its end (the invariant may fail before the last stage)
         case = one_case(tier, consts, last["c"])
+        case["gen"] = prm["gen"]
         tot, nv = replay_cases(v, binary, [case], seed, prm, "design counterexample (%s)" % r.violation, 120)
         if nv == 0:
             raise vlib.Broken("TLC violates %s with the code's constants but the real codecs do not reproduce it on that case: %s"
@@ -325,6 +325,8 @@ def run(tier, seed, replay):
         v.coverage.update(evaluations=tot["behaviours"], distinct_nontrivial=max(2, tot["distinct"]), rule="counterexample of the design replayed")
         return v.finish()
     cases = parse_cases(r.out)
+    for x in cases:
+        x["gen"] = prm["gen"]       # the replay files carry the tier's "generous" distance
     r.out = ""
     if len(cases) < 100:
         raise vlib.Broken("TLC printed only %d cases" % len(cases))
@@ -353,14 +355,14 @@ def run(tier, seed, replay):
     shapes = {case_shape(c) for c in cases}
     stages = collections.Counter(c["st"] for c in cases)
     t1 = time.time()
-    tot, _ = replay_cases(v, binary, cases, seed, prm, "case replay", 840 if big else 240)
+    tot, _ = replay_cases(v, binary, cases, seed, prm, "case replay", 1500 if big else 600)
     vlib.log("[replay] %d cases, %d real calls, %.1fs" % (tot["behaviours"], tot["steps"], time.time() - t1))
     if tot["behaviours"] != len(cases):
         raise vlib.Broken("the driver ran %d of %d cases" % (tot["behaviours"], len(cases)))
     # the same cases through real relay services on loopback sockets (the relay goroutines' own buffers and arithmetic)
     t2 = time.time()
     groups = live_groups(cases, tier, seed)
-    live = run_live(v, binary, groups, seed, 600 if big else 150)
+    live = run_live(v, binary, groups, seed, 900 if big else 400)
     vlib.log("[live] %d relays, %d cases, %.1fs" % (live["live_groups"], live["cases"], time.time() - t2))
     if live["live_groups"] != len(groups) and not live["crashed"]:
         raise vlib.Broken("the driver ran %d of %d live relays" % (live["live_groups"], len(groups)))
